@@ -41,7 +41,9 @@ def describe(tier):
                 f" (also wrapped as 'Muss e', 'X e', 'Muss e Kann') with each atom replaced by each of {len(NEAR_ATOMS)} near-miss "
                 "atoms and every edit-distance-1 neighbour on the lexical-token level (delete / duplicate / substitute / insert); (d) a fixed list "
                 "of type-confusing strings; (e) every indicator spelling at edit distance <= 1 of the documented ones (alone, followed by "
-                "condition expressions, as second part, as bare final mark). Each string goes through all four entry points; oracle: condition parser accepts <=> reference "
+                "condition expressions, as second part, as bare final mark); (f) every atom spelling at character edit distance <= 1 of [1] [12P] [1P0..1] "
+                "[UB1] [UB3] over an alphabet that also contains the operator symbols, braces and a few Unicode compatibility characters, alone "
+                "and embedded in condition / AHB expressions. Each string goes through all four entry points; oracle: condition parser accepts <=> reference "
                 "recogniser R2 accepts, else exactly SyntaxError; AHB parser: tree (whose tokens add up to the input, modulo whitespace) or SyntaxError; resolver: tree without raw "
                 "CONDITION_EXPRESSION token or SyntaxError, MUST accept L_cond + strict AHB forms, MUST reject everything outside L_cond + lenient "
                 "AHB forms (I2); is_valid_expression returns (False, message) for every must-reject string. Non-trivial = the string contains at "
@@ -72,9 +74,30 @@ def _indicator_edits():
     return sorted(out)
 
 
+ATOM_EDIT_BASES = ["[1]", "[12P]", "[1P0..1]", "[UB1]", "[UB3]"]
+ATOM_EDIT_CHARS = CHARS + ["∨", "⊻", "O", "o", "x", "2", "3", "4", "p", ",", "-", "{", "}", "²", "Ⅹ", "［", "‥", "\u00a0"]
+# (no Unicode DECIMAL digit such as '１' here: by I7 look-alike digits are outside every alphabet - lark's INT is ASCII, but the
+#  REPEATABILITY terminal uses \d, and whether '[1P0..１]' is "malformed" is not something the statement decides)
+
+
+def _atom_char_edits():
+    """every atom spelling at CHARACTER edit distance 1 (substitute / insert / delete) of the documented atom forms"""
+    out = set()
+    for a in ATOM_EDIT_BASES:
+        for i in range(len(a) + 1):
+            for c in ATOM_EDIT_CHARS:
+                out.add(a[:i] + c + a[i:])
+                if i < len(a):
+                    out.add(a[:i] + c + a[i + 1:])
+            if i < len(a):
+                out.add(a[:i] + a[i + 1:])
+    return sorted(out)
+
+
 def plan(tier, seed):
     b = BOUNDS[tier]
-    items = [{"fam": "special"}, {"fam": "indicators", "part": 0}, {"fam": "indicators", "part": 1}, {"fam": "indicators", "part": 2},
+    items = [{"fam": "special"}, {"fam": "atomedits", "part": 0}, {"fam": "atomedits", "part": 1}, {"fam": "atomedits", "part": 2},
+             {"fam": "atomedits", "part": 3}, {"fam": "indicators", "part": 0}, {"fam": "indicators", "part": 1}, {"fam": "indicators", "part": 2},
              {"fam": "indicators", "part": 3}]
     for L in range(1, b["char_len"] + 1):
         if L <= 2:
@@ -226,6 +249,12 @@ def run_item(item):
     if fam == "special":
         for s in SPECIAL:
             _do(r, s, fam)
+    elif fam == "atomedits":
+        for i, a in enumerate(_atom_char_edits()):
+            if i % 4 != item["part"]:
+                continue
+            for s in (a, "[7] U " + a, a + "[901]", "Muss " + a, "Muss [7] O " + a + " Soll [8]", "x" + a, "Kann[7]" + a + "K"):
+                _do(r, s, fam)
     elif fam == "indicators":
         for i, w in enumerate(_indicator_edits()):
             if i % 4 != item["part"]:
